@@ -65,7 +65,7 @@ PROPS["C05"] = {
 }
 
 CORE_STREAM = {"name": "core", "quick": 1200, "thorough": 40000}
-STORM_STREAM = {"name": "storm", "quick": 60, "thorough": 1500, "timeout": 7200}
+STORM_STREAM = {"confirm": False, "name": "storm", "quick": 60, "thorough": 1500, "timeout": 7200}
 CORE_RULE = ("core: sequentialised multi-request histories through the real proxy (1-3 hosts, 1-3 clients, up to 17 actions: requests on chosen client streams incl. equal ids on different clients and immediate reuse, "
              "backends hold every frame and answer / drop connections in any order) compared per request (hosts tried, reply class, client, stream) with Model.Core; "
              "storm: 2-8 concurrent clients x 40-240 requests (x8 thorough), 1-3 hosts x 1-2 connections, reordering backends, retried errors, up to 30 connection kills (single and simultaneous), "
@@ -277,11 +277,11 @@ PROPS["C18"] = {
     "module": "CqlVerif.Props.C18",
     "gens": ["locks"],
     "race": True,
-    "streams": [{"name": "race", "quick": 2, "thorough": 60, "cache": False}],
+    "streams": [{"name": "race", "quick": 2, "thorough": 60, "cache": False, "confirm": False}],
     "extra": c18_extra,
     "shrink": False,
-    "claim": "Lean theorem discipline_holds, kernel-evaluated over access facts regenerated from /repo's typed SSA on every run (every read/write of a field of Proxy, client, request, ClientConn, connPool, Session, Cluster, Conn, the load balancer and the pending table, with the locks certainly held there - intra-procedural must-hold dataflow joined with the intersection over all call sites on the VTA call graph - and the goroutine roots the function runs on): each field written after initialisation has a declared discipline (guarded by a lock in the right mode / confined to one goroutine / written only at start-up) that every access obeys; tied to execution by the race detector: the race stream (16-32 clients on all cores: pipelined handshakes with compression, concurrent USE of new keyspaces, PREPARE/EXECUTE with UNPREPARED, connection loss, topology changes, schema events) and the e2e streams of C01/C02/C07/C08/C14/C16 rebuilt with -race",
-    "note": "partial: the implication 'discipline obeyed => no data race' (lockset soundness) is the standard argument and is not yet a Lean theorem here; races on objects of the pinned protocol library (shared frames) are invisible to the field-level facts and are found only by the race-detector runs (three such defects were found and fixed); 'reviewed' disciplines are stated ordering arguments. Trusted: Lean kernel, extractor (go/ssa, VTA call graph), Go race detector",
+    "claim": "Lean theorems guarded_accesses_ordered (lockset soundness over all traces admitted by mutex / RWMutex semantics) and discipline_holds, kernel-evaluated over access facts regenerated from /repo's typed SSA on every run (every read/write of a field of Proxy, client, request, ClientConn, connPool, Session, Cluster, Conn, the load balancer and the pending table, with the locks certainly held there - intra-procedural must-hold dataflow joined with the intersection over all call sites on the VTA call graph - and the goroutine roots the function runs on): each field written after initialisation has a declared discipline (guarded by a lock in the right mode / confined to one goroutine / written only at start-up) that every access obeys; tied to execution by the race detector: the race stream (16-32 clients on all cores: pipelined handshakes with compression, concurrent USE of new keyspaces, PREPARE/EXECUTE with UNPREPARED, connection loss, topology changes, schema events) and the e2e streams of C01/C02/C07/C08/C14/C16 rebuilt with -race",
+    "note": "partial: guarded_accesses_ordered proves, for all executions, that two accesses made under the same lock (one in write mode) are separated by the first goroutine's unlock and the second's lock - for guarded fields; for confined / start-up / reviewed fields the ordering argument is stated, not proved; races on objects of the pinned protocol library (shared frames) are invisible to the field-level facts and are found only by the race-detector runs (three such defects were found and fixed); 'reviewed' disciplines are stated ordering arguments. Trusted: Lean kernel, extractor (go/ssa, VTA call graph), Go race detector",
     "rule": "race: each scenario = child process of the -race harness with N clients x families for 1.2 s (quick) / 4 s (thorough); every family alone, all together, random subsets; observation = set of racing access-site pairs (function names) from the detector's reports, plus process death; race_detector_runs: storm/core/ks/prep/events/retry/topo/reconn streams under -race; distinct = distinct scenario or stream case",
     "trusted_base": [KERNEL, HARNESS, "Gen/LockFacts.lean regenerated by `vh extract locks` (go/packages, go/ssa, callgraph/vta)", "Spec/LockDiscipline.lean hand-written", "Go race detector (ThreadSanitizer runtime)"],
     "assumptions": ["Proxy.Connect completes before Serve accepts clients (start-up writes)", "sync.Map, atomic and channel fields are race-free by construction and are not tracked"],
